@@ -47,6 +47,9 @@ class SpecEval(ExprMixin, CallMixin):
         return self.truthy(v, scratch), scratch.pc[len(st.pc):]
 
 
+_DEFINED = {}     # one z3 definition per (name, signature, body) in the process: units that share a model share its functions
+
+
 def formal(name, ty):
     if ty.kind == 'seq':
         s = SeqV(ty.args[0], z3.Const(name + '_a', z3.ArraySort(I, sort_of(ty.args[0]))), z3.Const(name + '_n', I))
@@ -63,12 +66,18 @@ def compile_specfuns(reg):
         for pn, pt in f.params:
             _, zs = formal('p_' + pn, pt)
             sorts += [z.sort() for z in zs]
+        key = (f.name, tuple(str(x) for x in sorts), str(sort_of(f.ret)), f.body)
+        f._fresh_def = key not in _DEFINED
         if f.body is not None:
-            f.z3fun = z3.RecFunction(f.name, *sorts, sort_of(f.ret))
+            if key not in _DEFINED:
+                n = sum(1 for k in _DEFINED if k[0] == f.name)
+                _DEFINED[key] = z3.RecFunction(f.name if n == 0 else '%s_v%d' % (f.name, n), *sorts, sort_of(f.ret))
+            f.z3fun = _DEFINED[key]
         else:
-            f.z3fun = z3.Function(f.name, *sorts, sort_of(f.ret))
+            _DEFINED.setdefault(key, z3.Function(f.name, *sorts, sort_of(f.ret)))
+            f.z3fun = _DEFINED[key]
     for f in reg.specfuns.values():
-        if f.body is None:
+        if f.body is None or not f._fresh_def:
             continue
         env, zs = {}, []
         for pn, pt in f.params:
